@@ -24,6 +24,7 @@ CONSTANTS Objs,        \* Sequence objects (naturals)
           MaxStored,   \* bound on the stored lease (state constraint of the model)
           MaxVer,      \* bound on the number of committed writes of the key (state constraint)
           MaxRestarts,
+          MaxQueued,   \* bound on the number of Next calls issued while their object is busy
           AssignEarly
 
 VARIABLES stored,    \* lease stored under the key; -1 = key absent
@@ -32,19 +33,21 @@ VARIABLES stored,    \* lease stored under the key; -1 = key absent
           given,     \* ghost: numbers handed out so far
           lastOf,    \* ghost: object -> last number it handed out (-1 none); reset at restart
           bad,       \* ghost: "" or the name of the violated property
-          restarts
+          restarts,
+          nq         \* number of queued Next calls so far
 
-vars == <<stored, ver, obj, given, lastOf, bad, restarts>>
+vars == <<stored, ver, obj, given, lastOf, bad, restarts, nq>>
 
 NoTxn == [kind |-> "none", readVer |-> 0, val |-> 0]
-Fresh == [live |-> FALSE, next |-> 0, leased |-> 0, txn |-> NoTxn]
+Fresh == [live |-> FALSE, next |-> 0, leased |-> 0, txn |-> NoTxn, wait |-> FALSE]
 
 Init ==
     /\ stored = -1 /\ ver = 0
     /\ obj = [o \in Objs |-> Fresh]
-    /\ given = {} /\ lastOf = [o \in Objs |-> -1] /\ bad = "" /\ restarts = 0
+    /\ given = {} /\ lastOf = [o \in Objs |-> -1] /\ bad = "" /\ restarts = 0 /\ nq = 0
 
-Idle(o) == obj[o].live /\ obj[o].txn.kind = "none"
+\* no call of the object is running or waiting for Sequence.lock
+Idle(o) == obj[o].live /\ obj[o].txn.kind = "none" /\ ~obj[o].wait
 ReadLease == IF stored = -1 THEN 0 ELSE stored
 
 \* ---- lease transaction (updateLease): begin = NewTransaction + Get + SetEntry
@@ -60,8 +63,8 @@ GetBegin(o) ==
     /\ \A p \in Objs : p < o => obj[p].live          \* symmetry: objects are created in order
     /\ obj' = [obj EXCEPT ![o] = [live |-> TRUE, next |-> IF AssignEarly THEN ReadLease ELSE 0,
                                    leased |-> IF AssignEarly THEN ReadLease + BW ELSE 0,
-                                   txn |-> [kind |-> "get", readVer |-> ver, val |-> ReadLease]]]
-    /\ UNCHANGED <<stored, ver, given, lastOf, bad, restarts>>
+                                   txn |-> [kind |-> "get", readVer |-> ver, val |-> ReadLease], wait |-> FALSE]]
+    /\ UNCHANGED <<stored, ver, given, lastOf, bad, restarts, nq>>
 
 Conflict(o) == ver # obj[o].txn.readVer
 
@@ -74,7 +77,7 @@ GetCommit(o) ==
        ELSE /\ stored' = obj[o].txn.val + BW
             /\ ver' = ver + 1
             /\ obj' = [obj EXCEPT ![o].txn = NoTxn, ![o].next = obj[o].txn.val, ![o].leased = obj[o].txn.val + BW]
-    /\ UNCHANGED <<given, lastOf, bad, restarts>>
+    /\ UNCHANGED <<given, lastOf, bad, restarts, nq>>
 
 HandOut(o, v) ==
     /\ given' = given \cup {v}
@@ -89,13 +92,13 @@ NextFast(o) ==
     /\ Idle(o) /\ obj[o].next < obj[o].leased
     /\ HandOut(o, obj[o].next)
     /\ obj' = [obj EXCEPT ![o].next = @ + 1]
-    /\ UNCHANGED <<stored, ver, restarts>>
+    /\ UNCHANGED <<stored, ver, restarts, nq>>
 
 \* Sequence.Next that has to renew the lease
 NextBegin(o) ==
     /\ Idle(o) /\ obj[o].next >= obj[o].leased
     /\ LeaseBegin(o, "next")
-    /\ UNCHANGED <<stored, ver, given, lastOf, bad, restarts>>
+    /\ UNCHANGED <<stored, ver, given, lastOf, bad, restarts, nq>>
 
 NextCommit(o) ==
     /\ obj[o].live /\ obj[o].txn.kind = "next"
@@ -106,7 +109,7 @@ NextCommit(o) ==
             /\ ver' = ver + 1
             /\ obj' = [obj EXCEPT ![o].txn = NoTxn, ![o].next = obj[o].txn.val + 1, ![o].leased = obj[o].txn.val + BW]
             /\ HandOut(o, obj[o].txn.val)
-    /\ UNCHANGED restarts
+    /\ UNCHANGED <<restarts, nq>>
 
 \* Sequence.Release: writes next back if the stored lease is still this object's lease
 ReleaseWrites(o) == stored = obj[o].leased
@@ -115,7 +118,7 @@ ReleaseBegin(o) ==
     /\ IF ReleaseWrites(o)
        THEN obj' = [obj EXCEPT ![o].txn = [kind |-> "release", readVer |-> ver, val |-> obj[o].next]]
        ELSE obj' = [obj EXCEPT ![o].leased = obj[o].next]   \* nothing to write: Update commits trivially
-    /\ UNCHANGED <<stored, ver, given, lastOf, bad, restarts>>
+    /\ UNCHANGED <<stored, ver, given, lastOf, bad, restarts, nq>>
 
 ReleaseCommit(o) ==
     /\ obj[o].live /\ obj[o].txn.kind = "release"
@@ -125,21 +128,42 @@ ReleaseCommit(o) ==
        ELSE /\ stored' = obj[o].txn.val
             /\ ver' = ver + 1
             /\ obj' = [obj EXCEPT ![o].txn = NoTxn, ![o].leased = obj[o].next]
-    /\ UNCHANGED <<given, lastOf, bad, restarts>>
+    /\ UNCHANGED <<given, lastOf, bad, restarts, nq>>
+
+\* A second goroutine calls Next on an object whose Release or lease renewal is inside its
+\* transaction: Sequence.lock is held for the whole call, so the new call waits ...
+NextQueued(o) ==
+    /\ nq < MaxQueued
+    /\ obj[o].live /\ obj[o].txn.kind \in {"next", "release"} /\ ~obj[o].wait
+    /\ obj' = [obj EXCEPT ![o].wait = TRUE]
+    /\ nq' = nq + 1
+    /\ UNCHANGED <<stored, ver, given, lastOf, bad, restarts>>
+
+\* ... and runs when the call in flight has returned: from memory, or by renewing the lease
+Resume(o) ==
+    /\ obj[o].live /\ obj[o].wait /\ obj[o].txn.kind = "none"
+    /\ IF obj[o].next < obj[o].leased
+       THEN /\ HandOut(o, obj[o].next)
+            /\ obj' = [obj EXCEPT ![o].next = @ + 1, ![o].wait = FALSE]
+       ELSE /\ obj' = [obj EXCEPT ![o].txn = [kind |-> "next", readVer |-> ver, val |-> ReadLease], ![o].wait = FALSE,
+                                  ![o].next = IF AssignEarly THEN ReadLease ELSE @,
+                                  ![o].leased = IF AssignEarly THEN ReadLease + BW ELSE @]
+            /\ UNCHANGED <<given, lastOf, bad>>
+    /\ UNCHANGED <<stored, ver, restarts, nq>>
 
 \* DB.Close + Open: no call in flight; every Sequence object is gone
 Restart ==
     /\ restarts < MaxRestarts
-    /\ \A o \in Objs : obj[o].txn.kind = "none"
+    /\ \A o \in Objs : obj[o].txn.kind = "none" /\ ~obj[o].wait
     /\ \E o \in Objs : obj[o].live
     /\ obj' = [o \in Objs |-> Fresh]
     /\ lastOf' = [o \in Objs |-> -1]
     /\ restarts' = restarts + 1
-    /\ UNCHANGED <<stored, ver, given, bad>>
+    /\ UNCHANGED <<stored, ver, given, bad, nq>>
 
 Next ==
     \/ \E o \in Objs : GetBegin(o) \/ GetCommit(o) \/ NextFast(o) \/ NextBegin(o) \/ NextCommit(o)
-                        \/ ReleaseBegin(o) \/ ReleaseCommit(o)
+                        \/ ReleaseBegin(o) \/ ReleaseCommit(o) \/ NextQueued(o) \/ Resume(o)
     \/ Restart
 
 Spec == Init /\ [][Next]_vars
